@@ -23,6 +23,7 @@ const (
 	kRunsA    = 12 // entries for key a
 	kRunsB    = 13
 	kRemovedA = 14 // key a was removed / context cleared: no entry may follow
+	kNewA     = 16 // requests that reported key a as newly created
 	kReAdded  = 15 // key a may have been removed and added again: instances of different incarnations may overlap (not covered by C07)
 	kKey0     = 20 // +id: key index of instance id
 	kLeft0    = 60
@@ -99,7 +100,7 @@ func (b *kbo) Reset() { vsched.Observe(oCb, 0, int64(keyIdx(b.key)), 0) }
 
 // newKeyed: outcome(key, run index) scripts every instance.
 func newKeyed(outcome func(key string, run int) int, delay bool, retry bool) *keyed.Keyed[string, int] {
-	var opts []keyed.Option[string, int]
+	opts := []keyed.Option[string, int]{nil} // (a nil option is skipped)
 	if delay {
 		opts = append(opts, keyed.WithReleaseDelay[string, int](time.Second))
 	}
@@ -264,23 +265,40 @@ func init() {
 	})
 
 	eng.Register(&eng.Scenario{
-		Name: "keyed-setkey-race", Props: []string{"C07"}, ObsNames: stdObs, MustFinish: true,
+		Name: "keyed-setkey-race", Props: []string{"C07", "C06"}, ObsNames: stdObs, MustFinish: true,
 		Doc:   "Keyed with a context: T1 = SetKey(a,true)  ||  T2 = SetKey(a,true) or SetKeyIfNotExists / SyncKeys([a]) (choice)  ||  T3 = RestartRoutine(a): key a is never executing twice; after RemoveKey(a) nothing of key a has a live context or starts again",
 		Quick: eng.Bounds{PB: 2}, Thorough: eng.Bounds{PB: 3},
 		Body: func() {
 			k := newKeyed(always(iUntilCancelled), false, false)
 			k.SetContext(bg, false)
 			how := vsched.Choose(2)
-			T("T1", func() { k.SetKey("a", true) })
+			// (C06) exactly one of the two requests creates the key; both see the data of the one construction
+			note := func(data int, isNew bool) {
+				if isNew {
+					vsched.CtrAdd(kNewA, 1)
+				}
+				if data != 0 && data != 1 {
+					fail("C06.setkey-result", "a request for key a returned data %d: the key was constructed more than once", data)
+				}
+			}
+			T("T1", func() { d, ex := k.SetKey("a", true); note(d, !ex) })
 			T("T2", func() {
 				if how == 0 {
-					k.SetKey("a", true)
+					d, ex := k.SetKey("a", true)
+					note(d, !ex)
 				} else {
-					k.SyncKeys([]string{"a"}, true)
+					added, _ := k.SyncKeys([]string{"a"}, true)
+					note(0, len(added) == 1)
 				}
 			})
 			T("T3", func() { k.RestartRoutine("a") })
 			vsched.Settle()
+			if n := vsched.Ctr(kNewA); n != 1 || vsched.Ctr(kCtors) != 1 {
+				fail("C06.setkey-result", "two concurrent requests for the absent key a: %d of them reported it as newly created and the constructor ran %d time(s), want 1 and 1", n, vsched.Ctr(kCtors))
+			}
+			if d, ok := k.GetKey("a"); !ok || d != 1 {
+				fail("C06.keyset", "GetKey(a) = (%d,%v) after two concurrent requests for it", d, ok)
+			}
 			if l := liveKeyed(0); l != 1 {
 				fail("C07.two-live", "%d instances of key a with a live context at quiescence, want exactly 1", l)
 			}
